@@ -1127,7 +1127,7 @@ func (e *ordEngine) totalOrders(reach []*core.FuncInfo) {
 			}
 			return io, field, true
 		}
-		e.strictOrder(owner, fi, body, coll, pi, pj, pos)
+		sepFields, modelled := e.strictOrder(owner, fi, body, coll, pi, pj, pos)
 		raw := false
 		rawFields := map[string]bool{}
 		var seen []string
@@ -1158,6 +1158,16 @@ func (e *ordEngine) totalOrders(reach []*core.FuncInfo) {
 		})
 		n++
 		sort.Strings(seen)
+		// a comparator written through helpers (three-way compare methods, lexicographic combinators): the evaluation
+		// of ORD-STRICT says which raw string terms separate two elements
+		if !raw && modelled && len(sepFields) > 0 {
+			raw = true
+			rawFields = sepFields
+			for f := range sepFields {
+				seen = append(seen, "evaluated: elements that differ in "+map[bool]string{true: "themselves", false: "field " + f}[f == ""]+" are ordered")
+			}
+			sort.Strings(seen)
+		}
 		// the fields compared must, together, carry every key of the map iteration that produced the elements
 		if raw && !rawFields[""] {
 			if missing := e.uncoveredKeys(coll.Type(), rawFields); missing != "" {
